@@ -1,0 +1,18 @@
+//go:build verif
+
+package iterable
+
+// VerifListStats walks the internal linked list of m and returns the number of
+// linked nodes (including the trailing sentinel), how many of them are marked
+// deleted and the sum of the iterator reference counts. It exists only in
+// builds with the `verif` tag (model-based verification harness, property C11).
+func VerifListStats[K comparable, V any](m *Map[K, V]) (nodes, deleted, refSum int) {
+	for p := m.head; p != nil; p = p.next {
+		nodes++
+		if p.state == rlDeleted {
+			deleted++
+		}
+		refSum += p.refCnt
+	}
+	return
+}
